@@ -324,3 +324,31 @@ def run_case(case: dict[str, Any]) -> CaseOut:
     out.sample = {'tier': case['tier'], 'backend': case.get('backend'),
                   'msg': b[:160], 'len': len(b), 'range': case.get('range')}
     return out
+
+
+# -- coverage-guided part (harness/fuzz.py) ----------------------------------------------
+
+FUZZ = {'quick': (3000, 4), 'thorough': (200000, 16)}
+FUZZ_MAX_LEN = 3000
+FUZZ_DICT = gen.FUZZ_MIME_DICT
+
+
+def fuzz_decode(data: bytes) -> Any:
+    """byte 0: tier (3 of 4 mime - in-process -, 1 of 4 a full wire case on
+    dict) and the literal spelling; bytes 1-2 the partial-fetch range"""
+    if len(data) < 4:
+        return None
+    sel, a, b, msg = data[0], data[1], data[2], data[3:]
+    if sel % 4:
+        return {'tier': 'mime', 'msg': msg}
+    return {'tier': 'wire', 'msg': msg, 'backend': 'dict',
+            'range': [a, 1 + b], 'pair': 'none',
+            'form': ['{n+}', '{n}', '~{n+}', '~{n}'][(sel >> 2) % 4]}
+
+
+def fuzz_seeds() -> list[bytes]:
+    out = []
+    for i, m in enumerate(gen.FUZZ_MESSAGES):
+        out.append(bytes([1, 0, 0]) + m)
+        out.append(bytes([4 * (i % 4), i, 7]) + m)
+    return out
